@@ -89,7 +89,7 @@ Fixpoint alloc_ub (d : nat) (sc : schema) (mi : nat) (ic : bool) (r : br) : N :=
     match nth_error sc mi with
     | None => 0
     | Some m => struct_cost m +
-                aloop (alloc_ub d' sc) (bparse d' sc) (S (Z.to_nat (br_len r))) m ic (init_pst m) (-1)%Z r
+                aloop (alloc_ub d' sc) (bparse d' sc) (S (Z.to_nat (br_len r - br_pos r))) m ic (init_pst m) (-1)%Z r
     end
   end.
 
@@ -582,6 +582,6 @@ Proof.
   - rewrite bparse_S. cbn [alloc_ub]. destruct (nth_error sc mi) as [m|] eqn:Em; [|lia].
     pose proof (smax_ge sc mi m Em) as Hm.
     pose proof (c_loop (kcoef sc) (smax sc) ltac:(unfold kcoef; lia) ltac:(unfold kcoef; lia) (alloc_ub d sc) (bparse d sc) IH
-                  (S (Z.to_nat (br_len r))) m ic (init_pst m) (-1)%Z r Hs ltac:(lia)) as X.
-    destruct (b_ploop (bparse d sc) (S (Z.to_nat (br_len r))) m ic (init_pst m) (-1) r); [| |exact X]; lia.
+                  (S (Z.to_nat (br_len r - br_pos r))) m ic (init_pst m) (-1)%Z r Hs ltac:(lia)) as X.
+    destruct (b_ploop (bparse d sc) (S (Z.to_nat (br_len r - br_pos r))) m ic (init_pst m) (-1) r); [| |exact X]; lia.
 Qed.
